@@ -8,7 +8,7 @@ SPEC = {
     },
     # which closer wins (its reason, and with it whether the peer is notified) depends on the schedule;
     # holds checks that the pair is consistent with one of the callers
-    "strip_obs": r" reason -?\d+ notify \d+",
+    "strip_obs": r" reason -?\d+ notify \d+| upd \d+| cstats \d+ \d+",
     "rule": ("five executors driving the real code: disp (Dispose.Close, N closers behind a spin barrier, H counting handlers, "
              "every error mask), tun (client Tunnel with a real manager, real Start goroutines and pipes; closers = Close(reason), "
              "peer notification, CloseAll, fatal error, both peers hanging up; every pair of closers and random crowds of 3-8, "
@@ -35,6 +35,9 @@ SPEC = {
         "byte counters do not move during one round of concurrent reports (they move between rounds); the mapping is written by this bridge only",
         "free-running cases (disp/tun/brg/sp closers) explore schedules by contention, not exhaustively; the model side of those "
         "cases runs a pseudo-random schedule, the theorems cover all of them",
+        "flow: the number of UpdatePortMappingStats calls and, for an explicit Close during the copy, the totals (last partial "
+        "batch is flushed after cleanup's report; it reaches the totals only through the periodic goroutine's final report) are "
+        "excluded from the model comparison; holds still requires totals <= bytes delivered there and == everywhere else",
         "Bridge.Start racing Bridge.Close (unlocked reads of the forwarders) is outside the model: see KNOWN_FINDINGS comment",
     ],
 }
